@@ -2,6 +2,7 @@
 from __future__ import annotations
 
 import glob
+import hashlib
 import os
 import re
 import shutil
@@ -122,10 +123,27 @@ def check_property(pid: str, timeout=900):
     return res
 
 
-def coqchk(pid: str, timeout=1500):
-    rc, out, dt = sh(["timeout", str(timeout), "coqchk", "-silent", "-o", "-Q", ".", "MD", f"MD.Properties.{pid}"], cwd=COQ,
-                     timeout=timeout + 30)
-    return rc, out[-4000:], dt
+def coqchk(pid: str, timeout=7200):
+    """Independent re-check (coqchk -o) of EVERY property module and everything they depend on, in one run (the closure is shared: ~20 min for one property,
+    not much more for all twenty), cached on the content of all compiled files: a thorough check of any property triggers it when the cache is stale.
+    A timeout is reported as such (the kernel check by coqc stands); only a genuine coqchk failure is a broken obligation."""
+    import glob
+    import json as _json
+    vos = sorted(glob.glob(os.path.join(COQ, "**", "*.vo"), recursive=True))
+    key = sha(b"".join(os.path.relpath(v, COQ).encode() + hashlib.sha256(open(v, "rb").read()).digest() for v in vos if "/Extract/" not in v))[:20]
+    cache = os.path.join(BUILD, f"coqchk_{key}.json")
+    with FileLock(os.path.join(BUILD, ".coqchk.lock")):
+        if os.path.exists(cache):
+            d = _json.load(open(cache))
+            return d["rc"], "(cached run over all property modules) " + d["out"], d["dt"]
+        mods = ["MD.Properties." + os.path.basename(v)[:-3] for v in vos if "/Properties/" in v]
+        if f"MD.Properties.{pid}" not in mods:
+            mods.append(f"MD.Properties.{pid}")
+        rc, out, dt = sh(["timeout", str(timeout), "coqchk", "-silent", "-o", "-Q", ".", "MD"] + mods, cwd=COQ, timeout=timeout + 30)
+        out = f"modules: {' '.join(m.split('.')[-1] for m in mods)}\n" + out[-4000:]
+        if rc == 0:
+            _json.dump({"rc": rc, "out": out, "dt": dt}, open(cache, "w"))
+        return rc, out, dt
 
 
 def build_runner(force=False):
